@@ -25,6 +25,10 @@ class _Break(Exception):
     pass
 
 
+class _Continue(Exception):
+    pass
+
+
 class MiniEval:
     MAX_ITER = 100000
 
@@ -62,6 +66,9 @@ class MiniEval:
                     a_ = None
                 if self.call_hook(s.value, a_) is not None:
                     return
+            if isinstance(s.value, ast.Call) and isinstance(s.value.func, ast.Attribute) and s.value.func.attr in ("append", "remove", "extend", "pop", "insert", "sort", "reverse", "clear"):
+                self._ev(s.value, env)
+                return
             raise AnalysisError(f"minieval: expression statement `{norm(s)[:60]}` outside the fragment")
         if isinstance(s, ast.Assign) and len(s.targets) == 1:
             t = s.targets[0]
@@ -73,7 +80,20 @@ class MiniEval:
                 return
             if isinstance(t, ast.Attribute) and isinstance(t.value, ast.Name) and t.value.id == "self":
                 self.attrs[t.attr] = self._ev(s.value, env)
+                if f"self.{t.attr}" in env:
+                    env[f"self.{t.attr}"] = self.attrs[t.attr]
                 return
+            if isinstance(t, (ast.Tuple, ast.List)):
+                self._unpack(t, self._ev(s.value, env), env)
+                return
+            if isinstance(t, ast.Subscript) and not isinstance(t.slice, ast.Slice):
+                base, i = self._ev(t.value, env), self._ev(t.slice, env)
+                if isinstance(base, list) and isinstance(i, int) and not isinstance(i, bool) and -len(base) <= i < len(base):
+                    base[i] = self._ev(s.value, env)
+                    return
+                if isinstance(base, dict):
+                    base[i] = self._ev(s.value, env)
+                    return
             if isinstance(t, ast.Attribute):
                 base = t.value
                 if isinstance(base, ast.Name) and env.get(base.id) is _OPAQUE:
@@ -112,6 +132,23 @@ class MiniEval:
                 except _Break:
                     break
             return
+        if isinstance(s, ast.For) and not s.orelse:
+            seq = self._iterable(s.iter, env)
+            n = 0
+            for item in list(seq):
+                n += 1
+                if n > self.MAX_ITER:
+                    raise AnalysisError("minieval: loop does not terminate within the iteration bound")
+                self._unpack(s.target, item, env)
+                try:
+                    self._block(s.body, env)
+                except _Break:
+                    break
+                except _Continue:
+                    continue
+            return
+        if isinstance(s, ast.Continue):
+            raise _Continue()
         if isinstance(s, ast.While) and not s.orelse:
             n = 0
             while self._truth(self._ev(s.test, env)):
@@ -133,6 +170,57 @@ class MiniEval:
             return
         raise AnalysisError(f"minieval: statement `{norm(s)[:60]}` outside the fragment")
 
+    def _unpack(self, t, v, env):
+        if isinstance(t, ast.Name):
+            env[t.id] = v
+            return
+        if isinstance(t, (ast.Tuple, ast.List)) and isinstance(v, (list, tuple)):
+            v = list(v)
+            star = [i for i, e in enumerate(t.elts) if isinstance(e, ast.Starred)]
+            if not star and len(v) == len(t.elts):
+                for e, x in zip(t.elts, v):
+                    self._unpack(e, x, env)
+                return
+            if len(star) == 1 and len(v) >= len(t.elts) - 1:
+                k = star[0]
+                tail = len(t.elts) - k - 1
+                for e, x in zip(t.elts[:k], v[:k]):
+                    self._unpack(e, x, env)
+                self._unpack(t.elts[k].value, v[k:len(v) - tail], env)
+                for e, x in zip(t.elts[k + 1:], v[len(v) - tail:]):
+                    self._unpack(e, x, env)
+                return
+            raise Raised(f"ValueError: cannot unpack {len(v)} values into `{norm(t)}`")
+        raise AnalysisError(f"minieval: unpacking into `{norm(t)[:40]}` outside the fragment")
+
+    def _iterable(self, e, env):
+        if isinstance(e, ast.Call) and not e.keywords:
+            d = dotted(e.func)
+            if d == "enumerate" and len(e.args) == 1:
+                return [(i, x) for i, x in enumerate(self._iterable(e.args[0], env))]
+            if d == "zip" and e.args:
+                return [tuple(x) for x in zip(*[self._iterable(a, env) for a in e.args])]
+        v = self._ev(e, env)
+        if isinstance(v, (list, tuple, str)):
+            return list(v)
+        if isinstance(v, (set, frozenset)):
+            return sorted(v)
+        if isinstance(v, dict):
+            return list(v)
+        raise AnalysisError(f"minieval: iteration over `{norm(e)[:40]}` outside the fragment")
+
+    def _comp(self, e, env):
+        if len(e.generators) != 1 or e.generators[0].is_async:
+            raise AnalysisError(f"minieval: comprehension `{norm(e)[:40]}` outside the fragment")
+        g = e.generators[0]
+        out = []
+        inner = dict(env)
+        for item in self._iterable(g.iter, env):
+            self._unpack(g.target, item, inner)
+            if all(self._truth(self._ev(c, inner)) for c in g.ifs):
+                out.append(self._ev(e.elt, inner))
+        return out
+
     @staticmethod
     def _truth(v):
         if v is _OPAQUE:
@@ -152,6 +240,13 @@ class MiniEval:
                 if isinstance(v, (int, float, str, bool)):
                     return v
             raise AnalysisError(f"minieval: unknown name `{e.id}`")
+        if isinstance(e, ast.Attribute) and norm(e) in env:
+            v = env[norm(e)]
+            if v is _OPAQUE:
+                raise AnalysisError(f"minieval: `{norm(e)}` is opaque")
+            return v
+        if isinstance(e, (ast.ListComp, ast.GeneratorExp)):
+            return self._comp(e, env)
         if isinstance(e, ast.Tuple):
             return tuple(self._ev(x, env) for x in e.elts)
         if isinstance(e, ast.List):
@@ -177,6 +272,11 @@ class MiniEval:
             ops = {ast.Add: lambda: a + b, ast.Sub: lambda: a - b, ast.Mult: lambda: a * b, ast.FloorDiv: lambda: a // b, ast.Mod: lambda: a % b}
             if type(e.op) in ops:
                 return ops[type(e.op)]()
+            bits = {ast.BitAnd: lambda: a & b, ast.BitOr: lambda: a | b, ast.BitXor: lambda: a ^ b}
+            if type(e.op) in bits and all(isinstance(x, int) for x in (a, b)):
+                return bits[type(e.op)]()
+            if isinstance(e.op, ast.Div) and all(isinstance(x, (int, float)) and not isinstance(x, bool) for x in (a, b)) and b != 0:
+                return a / b
         if isinstance(e, ast.UnaryOp):
             v = self._ev(e.operand, env)
             if isinstance(e.op, ast.Not):
@@ -218,7 +318,33 @@ class MiniEval:
         if isinstance(e, ast.Call):
             d = dotted(e.func)
             if d in ("ord", "chr", "int", "len", "str", "abs", "bool") and len(e.args) == 1 and not e.keywords:
-                return {"ord": ord, "chr": chr, "int": int, "len": len, "str": str, "abs": abs, "bool": bool}[d](self._ev(e.args[0], env))
+                try:
+                    return {"ord": ord, "chr": chr, "int": int, "len": len, "str": str, "abs": abs, "bool": bool}[d](self._ev(e.args[0], env))
+                except (ValueError, TypeError) as ex:
+                    raise Raised(f"{type(ex).__name__}: {ex}")
+            if d == "float" and len(e.args) == 1 and not e.keywords:
+                v = self._ev(e.args[0], env)
+                if isinstance(v, (int, float, str)) and not isinstance(v, bool):
+                    return float(v)
+            if d in ("max", "min", "sum") and len(e.args) == 1 and not e.keywords:
+                v = self._iterable(e.args[0], env)
+                if v and all(isinstance(x, (int, float)) and not isinstance(x, bool) for x in v):
+                    return {"max": max, "min": min, "sum": sum}[d](v)
+                if d == "sum" and not v:
+                    return 0
+            if isinstance(e.func, ast.Attribute) and e.func.attr == "split" and len(e.args) <= 1 and not e.keywords:
+                v = self._ev(e.func.value, env)
+                a = [self._ev(x, env) for x in e.args]
+                if isinstance(v, str) and all(isinstance(x, str) for x in a):
+                    return v.split(*a)
+            if isinstance(e.func, ast.Attribute) and e.func.attr in ("append", "remove", "extend", "pop", "insert", "sort", "reverse", "clear") and not e.keywords:
+                v = self._ev(e.func.value, env)
+                if isinstance(v, list):
+                    a = [self._ev(x, env) for x in e.args]
+                    try:
+                        return getattr(v, e.func.attr)(*a)
+                    except (ValueError, IndexError) as ex:
+                        raise Raised(f"{type(ex).__name__}: {ex}")
             if d in ("list", "tuple", "reversed", "sorted") and len(e.args) == 1 and not e.keywords:
                 v = self._ev(e.args[0], env)
                 if isinstance(v, (list, tuple)):
